@@ -164,7 +164,7 @@ package parsers
 //@   ensures[C03] c.initialTokens == old(c.initialTokens) && c.resultTokens == old(c.resultTokens) && c.currentTokenIndex == old(c.currentTokenIndex)
 //@   assigns any(tokenizers.AbstractTokenizer).Scanner, any(tokenizers.AbstractTokenizer).NextTokenValue, any(tokenizers.AbstractTokenizer).LastTokenType,
 //@       any(tokenizers.AbstractTokenizer).skipWhitespaces, any(tokenizers.AbstractTokenizer).skipComments, any(tokenizers.AbstractTokenizer).skipEof,
-//@       any(tokenizers.AbstractTokenizer).decodeStrings, any(tokenizers.MustacheTokenizer).special, any(tokenizers.MustacheTokenizer).lastReader
+//@       any(tokenizers.AbstractTokenizer).decodeStrings, any(tokenizers.MustacheTokenizer).special, any(tokenizers.MustacheTokenizer).lastReader, any(tokenizers.MustacheTokenizer).tagStart, any(tokenizers.MustacheTokenizer).comment
 //@   nopanic
 //
 //@ func (c *MustacheParser) ParseString
